@@ -13,24 +13,25 @@
 (* Complaints are printed; the trace is REJECTED iff a "V:" was printed or  *)
 (* not every event was consumed.                                           *)
 (***************************************************************************)
-EXTENDS SnapAlg, Json, IOUtils
+EXTENDS SnapChainOps, Json, IOUtils
 
 CONSTANTS AllocC, AllocK      \* allocation bound: peak <= AllocC * input bytes + AllocK
 
 Rec == ndJsonDeserialize(IOEnv.TRACE)
 
-VARIABLES i, nv
-vars == <<i, nv>>
+\* i: events consumed, nv: property-level complaints so far; the rest is the state of the chain the
+\* events of op "chain" belong to (the snapshots of the sender, the snapshots the receiver obtained,
+\* the receiver chain fed by the deltas of the DDNet reference, the delta that travelled last)
+VARIABLES i, nv, hist, store, rstore, last
+vars == <<i, nv, hist, store, rstore, last>>
 
 CV(cond, name) == IF cond THEN {} ELSE {<<"V", name>>}
 CD(cond, name) == IF cond THEN {} ELSE {<<"D", name>>}
 Has(e, f) == f \in DOMAIN e
 
 \* ---- projections of logged values
-SnapOfItems(its) == FoldLeft(LAMBDA f, it : (<<it.t, it.i>> :> it.d) @@ f, EmptySnap, its)
 ItemsAre(its, S) == Len(its) = Cardinality(DOMAIN S) /\ SameSnap(SnapOfItems(its), S)
 ViewOfItems(its) == FoldLeft(LAMBDA f, it : (<<it.ty, it.i>> :> it.d) @@ f, EmptySnap, its)
-OszOf(p) == FoldLeft(LAMBDA f, x : (x[1] :> x[2]) @@ f, EmptySnap, p)
 NoPacker(ws) == {w \in ToSet(ws) : w \notin {"PackerOverlongIntEncoding", "PackerNonZeroIntPadding", "PackerExcessData"}}
 AllocOK(peak, inb) == peak <= AllocC * inb + AllocK
 \* byte strings longer than this are not decoded a second time by the spec (the code's own reader
@@ -153,7 +154,16 @@ JudgeSnap(e) ==
     CV(Len(e.wb.v) > ByteCheckMax \/ DecodeAll(e.wb.v) = [ints |-> e.wi.v, tail |-> FALSE], "wire-bytes-differ-from-wire-ints")) \cup
    UNION {CV(c.out = "ok", "copy-" \o c.src \o ":read-" \o c.out) \cup
           (IF c.out # "ok" THEN {} ELSE
-           CV(ToSet(c.warn) = {}, "copy-" \o c.src \o ":warning") \cup ObsIsX(c.obs, xS, "copy-" \o c.src))
+           CV(ToSet(c.warn) = {}, "copy-" \o c.src \o ":warning") \cup ObsIsX(c.obs, xS, "copy-" \o c.src) \cup
+           \* the copy itself is written out and read back (the laws hold for every snapshot, also for
+           \* one obtained by a delta that deleted, replaced or shrank items)
+           (IF ~Has(c, "rewi") THEN {} ELSE
+            CV(c.rewi.out = "ok" /\ e.wi.out = "ok" /\ c.rewi.v = e.wi.v, "copy-" \o c.src \o ":serialises-differently-from-the-original") \cup
+            UNION {CV(r.out = "ok", "copy-" \o c.src \o ":rewritten-" \o r.form \o "-read-" \o r.out) \cup
+                   (IF r.out # "ok" THEN {} ELSE
+                    CV(ToSet(r.warn) = {}, "copy-" \o c.src \o ":rewritten-" \o r.form \o "-warning") \cup
+                    ObsIsX(r.obs, xS, "copy-" \o c.src \o ":rewritten-" \o r.form))
+                   : r \in ToSet(c.re)}))
           : c \in ToSet(e.copies)} \cup
    (IF e.wi.out # "ok" \/ ~ParseInts(e.wi.v).ok THEN {} ELSE
     LET reg == Reg(ParseInts(e.wi.v).s) IN
@@ -263,21 +273,334 @@ JudgeParseDelta(e) ==
        IF ~q.ok THEN NoPanicSnap(e.snap, "delta:snap:accepted-ill-formed-registry")
        ELSE AcceptedSnapIs(e.snap, ap.s, e.adds2, "delta:snap"))))))
 
+\* ------------------------------------------------------------------ op "chain" (C09 / C10 / C11 on chains)
+\* The state of the judge is what the real objects held after the previous steps (as they wrote it
+\* out): every step is judged against the spec applied to *that*, so a deviation is reported once
+\* and the rest of the chain is still judged.
+Keep == 4
+Forget(seq) == [j \in 1..Len(seq) |-> IF j = 1 \/ j + Keep + 1 >= Len(seq) THEN seq[j] ELSE EmptySnap]
+ForgetR(seq) == [j \in 1..Len(seq) |-> IF j = 1 \/ j + Keep + 1 >= Len(seq) THEN seq[j] ELSE [has |-> FALSE, s |-> EmptySnap]]
+NoLast == [some |-> FALSE, d |-> EmptyDelta]
+\* the raw snapshot an object wrote out (w: [out, v])
+Written(w) == IF w.out = "ok" /\ ParseInts(w.v).ok THEN ParseInts(w.v).s ELSE EmptySnap
+WrittenOK(w) == w.out = "ok" /\ ParseInts(w.v).ok /\ ParseInts(w.v).warn = {}
+\* the snapshot the receiver keeps after a step that stored one
+KeptOf(rc) == IF Has(rc, "rr") /\ rc.rr.out = "ok" THEN Written(rc.rr.wi) ELSE Written(rc.res_wi)
+\* the written / re-read intermediate equals what was obtained
+RereadIs(rc, T, probes, lvl) ==
+  IF ~Has(rc, "rr") THEN {} ELSE
+  CV(rc.rr.out = "ok", "chain:reread-" \o rc.rr.form \o "-" \o rc.rr.out) \cup
+  (IF rc.rr.out # "ok" THEN {} ELSE
+   CV(ToSet(rc.rr.warn) = {}, "chain:reread-warning") \cup
+   CV(WrittenOK(rc.rr.wi) /\ SameSnap(Written(rc.rr.wi), T), "chain:reread-unequal") \cup
+   (IF lvl = "snap" THEN ObsIs(rc.rr.obs, T, probes, "chain:reread") ELSE CV(rc.rr.crc = Crc(T), "chain:reread-checksum")))
+\* in sync: the target must come out (C09; C10 at level "snap")
+ChainInSync(e, rc, B) ==
+  CV(rc.read = "ok", "chain:delta-read-" \o rc.read) \cup
+  (IF rc.read # "ok" THEN {} ELSE
+   CV(ToSet(rc.read_warn) = {}, "chain:delta-read-warning") \cup
+   CV(rc.apply = "ok", "chain:apply-" \o rc.apply) \cup
+   (IF rc.apply # "ok" THEN {} ELSE
+    LET T == Written(rc.res_wi) IN
+    CV(ToSet(rc.apply_warn) = {}, "chain:apply-warning") \cup
+    CV(WrittenOK(rc.res_wi) /\ SameSnap(T, B), "chain:result-differs-from-target") \cup
+    (IF e.lvl = "raw"
+     THEN CV(ItemsAre(rc.res.items, B), "chain:result-items-differ-from-target") \cup
+          CV(rc.res.crc_out = "ok" /\ rc.res.crc = Crc(B), "chain:checksum-differs") \cup
+          CV(rc.res_wi.out = "ok" /\ rc.res_wi.v = WireInts(B), "chain:result-serialises-differently-from-target")
+     ELSE ObsIs(rc.obs, B, e.probes, "chain:result") \cup
+          (LET TT == BAddAll(Recycle(B), e.adds2)
+           IN RecycleIsX(rc.rec, TT, Expect(TT.b.raw, e.probes), WireInts(TT.b.raw), Reg(B), "chain:result"))) \cup
+    RereadIs(rc, T, IF e.lvl = "snap" THEN e.probes ELSE <<>>, e.lvl)))
+\* out of sync (wrong base, the same delta once more): total, within the limits, re-read equal (C11);
+\* what comes out is the format's Apply (detail)
+ChainOutOfSync(e, rc, X, dl) ==
+  CV(rc.read # "panic", "chain:delta-read-panic") \cup
+  (IF rc.read \notin {"ok", "kept"} THEN {} ELSE
+   CV(rc.apply # "panic", "chain:apply-panic") \cup
+   (IF ~dl.some \/ rc.apply = "panic" THEN {} ELSE
+    LET ap == Apply(X, dl.d) IN
+    CD(ap.ok = (rc.apply = "ok"), "chain:out-of-sync-apply-verdict-differs") \cup
+    (IF rc.apply # "ok" THEN (IF ap.ok THEN {} ELSE CD(rc.apply = ap.e, "chain:out-of-sync-apply-error-class")) ELSE
+     LET T == Written(rc.res_wi) IN
+     CV(WrittenOK(rc.res_wi), "chain:out-of-sync-result-not-written-or-not-readable") \cup
+     CV(WithinLimits(T), "chain:out-of-sync-limit-breach") \cup
+     (IF ~ap.ok THEN {} ELSE
+      CD(SameSnap(T, ap.s), "chain:out-of-sync-result-differs-from-format") \cup
+      CD(ToSet(rc.apply_warn) = ap.warn, "chain:out-of-sync-apply-warnings")) \cup
+     (IF e.lvl = "raw" THEN CV(rc.res.crc_out = "ok", "chain:out-of-sync-crc-panic") \cup CD(rc.res.crc = Crc(T), "chain:out-of-sync-checksum")
+      ELSE IF CheckRegistry(T).ok THEN ObsIs(rc.obs, T, e.probes, "chain:out-of-sync-result")
+      ELSE NoPanicSnap(rc, "chain:out-of-sync:accepted-ill-formed-registry")) \cup
+     RereadIs(rc, T, IF e.lvl = "snap" THEN e.probes ELSE <<>>, IF e.lvl = "snap" /\ CheckRegistry(T).ok THEN "snap" ELSE "rawcrc"))))
+ChainAlloc(rc) ==
+  (IF Has(rc, "peak") THEN CV(AllocOK(rc.peak, rc.inb), "chain:delta-read-over-allocation") ELSE {}) \cup
+  (IF Has(rc, "apply_peak") /\ Has(rc, "base_ints") /\ Has(rc, "inb")
+   THEN CV(AllocOK(rc.apply_peak, rc.inb + 4 * rc.base_ints), "chain:apply-over-allocation") ELSE {})
+
+\* the sender's side of a "next" step at level "snap": the Builder (fresh / recycled / recycle_like)
+ChainBuiltSnap(e, H0, tg, B) ==
+  LET st == e.step IN
+  CV(e.snd.src_out = "ok", "chain:recycle-panic") \cup
+  (IF e.snd.src_out # "ok" THEN {} ELSE
+   CV(\A j \in 1..Len(e.snd.outs) : e.snd.outs[j] # "panic", "chain:builder-add-panic") \cup
+   CV(OkNess(e.snd.outs) = OkNess(tg.outs), "chain:builder-add-outcome") \cup
+   (IF OkNess(e.snd.outs) # OkNess(tg.outs) THEN {} ELSE
+    CD(e.snd.outs = tg.outs, "chain:builder-error-class") \cup
+    CV(WrittenOK(e.snd.wi), "chain:built-snapshot-not-written-or-not-readable") \cup
+    CV(CheckRegistry(B).ok, "chain:built-snapshot-registry-ill-formed") \cup
+    (IF ~CheckRegistry(B).ok THEN {} ELSE
+     \* the user's view is the spec's (numbering aside); a recycled builder still knows the UUID types
+     ObsIsX(e.snd.obs, [Expect(B, e.probes) EXCEPT !.view = View(tg.s),
+                                                     !.look = Expect(tg.s, e.probes).look], "chain:built") \cup
+     CV(st.src.k = "fresh" \/ KeepsTypes(e.snd.wi, Reg(H0[st.src.j])), "chain:recycled-builder-forgot-uuid-types") \cup
+     CD(e.snd.wi.v = WireInts(tg.s), "chain:built-wire-ints-differ"))))
+ChainBuiltRaw(e, tg, B) ==
+  CV(\A j \in 1..Len(e.snd.outs) : e.snd.outs[j] # "panic", "chain:builder-add-panic") \cup
+  CD(OkNess(e.snd.outs) = OkNess(tg.outs), "chain:raw-builder-add-outcome") \cup
+  (IF OkNess(e.snd.outs) # OkNess(tg.outs) THEN {} ELSE
+   CD(e.snd.outs = tg.outs, "chain:builder-error-class") \cup
+   CV(e.snd.wi.out = "ok" /\ e.snd.wi.v = WireInts(tg.s), "chain:snapshot-wire-ints-differ-from-format") \cup
+   CV(e.snd.crc = Crc(tg.s), "chain:checksum-of-built-snapshot"))
+
+\* the DDNet reference on the step: its integers of the target, its delta by the format, and its
+\* delta applied by the real code to the snapshot obtained from the *previous reference deltas*
+ChainRef(e, A, B, RX, osz) ==
+  IF ~Has(e, "ref") THEN {} ELSE
+  CV(e.ref.wb = WireInts(B), "chain:reference-snapshot-ints-differ") \cup
+  (IF e.ref.dw_out # "ok" THEN {<<"D", "chain:reference-delta-capacity">>} ELSE
+   LET rpd == IF e.ref.dw = <<>> THEN [ok |-> TRUE, d |-> EmptyDelta, warn |-> {}] ELSE ParseDelta(e.ref.dw, FALSE, osz)
+       rap == Apply(A, rpd.d)
+   IN CV(rpd.ok, "chain:reference-delta-unreadable-by-format") \cup
+      (IF ~rpd.ok THEN {} ELSE CV(rap.ok /\ SameSnap(rap.s, B), "chain:reference-delta-does-not-yield-target-by-format")) \cup
+      (IF ~Has(e, "r_ref") \/ ~RX.has \/ ~SameSnap(RX.s, A) THEN {} ELSE
+       CV(e.r_ref.read = "ok" /\ e.r_ref.apply = "ok", "chain:reference-delta-read-" \o e.r_ref.read \o (IF Has(e.r_ref, "apply") THEN "-apply-" \o e.r_ref.apply ELSE "")) \cup
+       (IF e.r_ref.read # "ok" \/ e.r_ref.apply # "ok" THEN {} ELSE
+        CV(ItemsAre(e.r_ref.res.items, B), "chain:reference-delta-result-differs-from-target") \cup
+        CV(e.r_ref.res.crc = Crc(B), "chain:reference-delta-checksum-differs") \cup
+        CV(e.r_ref.res_wi.out = "ok" /\ e.r_ref.res_wi.v = e.ref.wb, "chain:reference-delta-result-serialises-differently-from-reference"))))
+
+\* one step: complaints and the next state of the judge
+ChainStep(e) ==
+  LET H0 == IF e.n = 1 THEN <<EmptySnap>> ELSE hist
+      S0 == IF e.n = 1 THEN <<EmptySnap>> ELSE store
+      R0 == IF e.n = 1 THEN << [has |-> TRUE, s |-> EmptySnap] >> ELSE rstore
+      L0 == IF e.n = 1 THEN NoLast ELSE last
+      st == e.step
+      same(cs) == [cs |-> cs, hist |-> H0, store |-> S0, rstore |-> R0, last |-> L0]
+  IN
+  IF Has(e, "bad_index") \/ st.rb > Len(S0) \/ (st.k # "again" /\ st.sb > Len(H0))
+  THEN same({<<"D", "chain:step-refers-to-a-forgotten-snapshot">>}) ELSE
+  IF st.k = "again" THEN
+    LET X == S0[st.rb]
+        rc == e.rcv
+        stored == rc.stored
+    IN [cs |-> (IF rc.read = "none" THEN CD(~L0.some, "chain:again-without-a-delta") ELSE ChainOutOfSync(e, rc, X, L0) \cup ChainAlloc(rc)),
+        hist |-> H0,
+        store |-> IF stored THEN Forget(Append(S0, KeptOf(rc))) ELSE S0,
+        rstore |-> IF stored THEN ForgetR(Append(R0, [has |-> FALSE, s |-> EmptySnap])) ELSE R0,
+        last |-> L0]
+  ELSE
+    LET tg == Target(H0, st)
+        \* the target as the real sender wrote it out (at level "snap" the numbering is the code's)
+        B == IF Has(e.snd, "wi") /\ WrittenOK(e.snd.wi) THEN Written(e.snd.wi) ELSE tg.s
+        A == H0[st.sb]
+        X == S0[st.rb]
+        osz == OszOf(st.osz)
+        built == IF e.lvl = "snap" THEN ChainBuiltSnap(e, H0, tg, B) ELSE ChainBuiltRaw(e, tg, B)
+        H1 == Forget(Append(H0, B))
+    IN
+    IF e.lvl = "snap" /\ e.snd.src_out # "ok" THEN same(built) ELSE
+    LET contract == Compatible(A, B) /\ Writable(Delta(A, B), osz) IN
+    IF ~Has(e, "contract") THEN same(built) ELSE
+    IF ~e.contract \/ ~contract THEN
+      [cs |-> built \cup CD(e.contract = contract, "chain:contract-verdict-differs") \cup {<<"D", "chain:step-outside-the-contract-of-create-or-write">>},
+       hist |-> H1, store |-> S0, rstore |-> R0, last |-> L0]
+    ELSE IF e.create # "ok" THEN
+      [cs |-> built \cup {<<"V", "chain:create-panic">>}, hist |-> H1, store |-> S0, rstore |-> R0, last |-> L0]
+    ELSE
+    LET isb == Has(e, "dwb")
+        wrote == e.dw.out = "ok" /\ (~isb \/ e.dwb.out = "ok")
+        pd == IF e.dw.out = "ok" THEN ParseDelta(e.dw.v, FALSE, osz) ELSE Err("none")
+        ap == IF pd.ok THEN Apply(A, pd.d) ELSE Err("none")
+        wire == CV(wrote, "chain:delta-write-" \o e.dw.out \o (IF isb THEN "-" \o e.dwb.out ELSE "")) \cup
+                (IF ~wrote THEN {} ELSE
+                 CV(pd.ok, "chain:delta-wire-unreadable-by-format") \cup
+                 (IF ~pd.ok THEN {} ELSE
+                  CV(pd.warn = {}, "chain:delta-wire-warning-by-format") \cup
+                  CV(ap.ok /\ ap.warn = {} /\ SameSnap(ap.s, B), "chain:delta-wire-does-not-yield-target-by-format")) \cup
+                 CV(~isb \/ Len(e.dwb.v) > ByteCheckMax \/ DecodeAll(e.dwb.v) = [ints |-> e.dw.v, tail |-> FALSE], "chain:delta-bytes-differ-from-delta-ints") \cup
+                 CD(e.dw.v = DeltaWire(Delta(A, B), osz), "chain:delta-wire-form-differs"))
+    IN
+    IF ~Has(e, "rcv") THEN [cs |-> built \cup wire, hist |-> H1, store |-> S0, rstore |-> R0, last |-> L0] ELSE
+    LET rc == e.rcv
+        sync == SameSnap(X, A)
+        L1 == IF rc.read = "ok" THEN [some |-> pd.ok, d |-> IF pd.ok THEN pd.d ELSE EmptyDelta] ELSE NoLast
+        recv == IF sync THEN ChainInSync(e, rc, B) ELSE ChainOutOfSync(e, rc, X, L1)
+        stored == rc.stored
+        rnew == IF Has(e, "r_ref") /\ e.r_ref.read = "ok" /\ Has(e.r_ref, "apply") /\ e.r_ref.apply = "ok"
+                THEN [has |-> TRUE, s |-> SnapOfItems(e.r_ref.res.items)] ELSE [has |-> FALSE, s |-> EmptySnap]
+    IN [cs |-> built \cup wire \cup recv \cup ChainAlloc(rc) \cup
+               (IF e.lvl = "raw" /\ st.rb <= Len(R0) THEN ChainRef(e, A, B, R0[st.rb], osz) ELSE {}),
+        hist |-> H1,
+        store |-> IF stored THEN Forget(Append(S0, KeptOf(rc))) ELSE S0,
+        rstore |-> IF stored THEN ForgetR(Append(R0, rnew)) ELSE R0,
+        last |-> L1]
+
+\* ------------------------------------------------------------------ op "api" (public helpers of snap.rs / format.rs)
+SeqAll(s, P(_)) == \A j \in 1..Len(s) : P(s[j])
+JudgeApi(e) ==
+  LET S == SnapOfItems(e.items)                       \* needs distinct keys; duplicates: the first stays
+      rb == RawBuild(e.items)
+      R == rb.b.raw
+      osz == OszOf(e.osz)
+      osz2 == OszOf(e.osz2)
+      bb == BAddAll(NewBuilder, e.adds)
+      SS == bb.b.raw
+  IN
+  \* key helpers
+  UNION {LET k == e.keys[j] o == e.keys_out[j] IN
+         CV(~Has(o, "panic"), "api:key-helper-panic") \cup
+         (IF Has(o, "panic") THEN {} ELSE
+          CD(o.key = KeyInt(<<k[1], k[2]>>) /\ o.t = k[1] /\ o.i = k[2] /\ o.rk = o.key /\ o.fk = <<k[1], k[2]>>, "api:key-helpers"))
+         : j \in 1..Len(e.keys)} \cup
+  UNION {LET x == e.kints[j] o == e.kints_out[j] IN
+         CV(~Has(o, "panic"), "api:key-helper-panic") \cup
+         (IF Has(o, "panic") THEN {} ELSE CD(<<o.t, o.i>> = KeyOfInt(x) /\ o.back = x, "api:key-helpers-of-integer"))
+         : j \in 1..Len(e.kints)} \cup
+  \* UUID <-> item data
+  UNION {LET d == e.udata[j] o == e.udata_out[j] IN
+         CV(~Has(o, "panic"), "api:uuid-helper-panic") \cup
+         (IF Has(o, "panic") THEN {} ELSE
+          CD(o.some = (Len(d) >= 4), "api:item-data-to-uuid-verdict") \cup
+          (IF ~o.some \/ Len(d) < 4 THEN {} ELSE
+           CD(o.bytes = UuidBytes(d) /\ o.back = UuidOf(d) /\ o.ty = UuidOf(d), "api:uuid-item-data-round-trip") \cup
+           CD((ToSet(o.warn) = {"ExcessUuidItemData"}) = (Len(d) > 4) /\ ToSet(o.warn) \subseteq {"ExcessUuidItemData"}, "api:uuid-warning")))
+         : j \in 1..Len(e.udata)} \cup
+  \* item deltas
+  UNION {LET p == e.dpairs[j] o == e.dpairs_out[j]
+             a == IF Has(p, "a") THEN Some(p.a) ELSE None
+             x == ItemDiff(a, p.b)
+             y == ItemPatch(a, p.b)
+         IN
+         CV(o.create # "panic" /\ o.patch # "panic" /\ (~Has(o, "apply") \/ o.apply # "panic"), "api:item-delta-panic") \cup
+         CD(x.ok = (o.create = "ok") /\ y.ok = (o.patch = "ok"), "api:item-delta-verdict") \cup
+         (IF ~x.ok \/ o.create # "ok" THEN {} ELSE
+          CD(o.delta = x.d, "api:create-item-delta") \cup
+          CD(Has(o, "apply") /\ o.apply = "ok" /\ o.out = p.b, "api:apply-of-created-item-delta")) \cup
+         (IF ~y.ok \/ o.patch # "ok" THEN {} ELSE CD(o.patched = y.d, "api:apply-item-delta"))
+         : j \in 1..Len(e.dpairs)} \cup
+  \* header codecs
+  (IF ~Has(e, "hdr_out") THEN {} ELSE
+   LET h == e.hdr_out
+       sh == SnapHeaderOf(e.hw)
+       dh == DeltaHeaderOf(e.hw)
+       snapis(o) == CV(o.out # "panic", "api:snap-header-panic") \cup
+                    CD((o.out = "ok") = sh.ok, "api:snap-header-verdict") \cup
+                    (IF o.out = "ok" /\ sh.ok THEN CD(o.data_size = sh.data_size /\ o.num_items = sh.num_items, "api:snap-header-fields")
+                     ELSE IF o.out # "ok" /\ ~sh.ok THEN CD(o.out = sh.e, "api:snap-header-error-class") ELSE {})
+       deltais(o) == CV(o.out # "panic", "api:delta-header-panic") \cup
+                     CD((o.out = "ok") = dh.ok, "api:delta-header-verdict") \cup
+                     (IF o.out = "ok" /\ dh.ok THEN CD(o.nd = dh.nd /\ o.nu = dh.nu /\ NoPacker(o.warn) = dh.warn, "api:delta-header-fields")
+                      ELSE IF o.out # "ok" /\ ~dh.ok THEN CD(o.out = dh.e, "api:delta-header-error-class") ELSE {})
+   IN snapis(h.snap_obj) \cup snapis(h.snap_bytes) \cup deltais(h.delta_obj) \cup deltais(h.delta_bytes) \cup
+      CD(DecodeAll(h.bytes) = [ints |-> e.hw, tail |-> FALSE], "api:packer-encoding-of-integers") \cup
+      (IF ~Has(h, "enc_obj") THEN {} ELSE
+       CD(h.enc_obj = <<e.hw[1], e.hw[2], 0>>, "api:delta-header-encode-obj") \cup
+       CV(h.enc_bytes.out # "panic", "api:delta-header-encode-panic") \cup
+       CD(h.enc_bytes.out = "ok" /\ DecodeAll(h.enc_bytes.v) = [ints |-> <<e.hw[1], e.hw[2], 0>>, tail |-> FALSE], "api:delta-header-encode"))) \cup
+  \* the raw snapshot
+  (LET r == e.raw IN
+   CD(OkNess(r.outs) = OkNess(rb.outs), "api:raw-builder-add-outcome") \cup
+   (IF OkNess(r.outs) # OkNess(rb.outs) THEN {} ELSE
+    CD(r.outs = rb.outs, "api:raw-builder-error-class") \cup
+    CV(r.enum_out = "ok" /\ r.look_out = "ok", "api:raw-enumeration-or-lookup-panic") \cup
+    (IF r.enum_out # "ok" \/ r.look_out # "ok" THEN {} ELSE
+     LET order == [j \in 1..Len(r.enum.order) |-> <<r.enum.order[j][1], r.enum.order[j][2]>>]
+         n == Cardinality(DOMAIN R)
+     IN CV(ToSet(order) = DOMAIN R /\ Len(order) = n, "api:raw-enumerated-keys-differ") \cup
+        CD(order = SignedKeySeq(DOMAIN R), "api:raw-enumeration-order") \cup
+        CD(r.enum.lens = [j \in 1..(n + 1) |-> n + 1 - j], "api:raw-announced-lengths") \cup
+        CD(r.enum.hints = [j \in 1..(n + 1) |-> <<n + 1 - j, n + 1 - j>>], "api:raw-size-hints") \cup
+        CD(r.look = [j \in 1..Len(e.probe) |-> RawLookup(R, e.probe[j][1], e.probe[j][2])], "api:raw-lookup")) \cup
+    CV(r.crc = Crc(R), "api:checksum") \cup
+    CV(r.wi.out = "ok" /\ r.wi.v = WireInts(R), "api:snapshot-wire-ints-differ-from-format") \cup
+    CV(r.wb.out = "ok" /\ (Len(r.wb.v) > ByteCheckMax \/ DecodeAll(r.wb.v) = [ints |-> WireInts(R), tail |-> FALSE]), "api:snapshot-wire-bytes-differ-from-format") \cup
+    (IF ~Has(r, "short_ints") THEN {} ELSE
+     CV(r.short_ints # "panic" /\ r.short_bytes # "panic" /\ r.exact_ints.out # "panic", "api:write-into-short-buffer-panic") \cup
+     CD(r.short_ints = "capacity" /\ r.short_bytes = "capacity", "api:short-buffer-not-refused") \cup
+     CD(r.exact_ints.out = "ok" /\ r.exact_ints.v = WireInts(R), "api:exact-buffer-refused")) \cup
+    CV(r.recycled_out = "ok", "api:raw-recycle-panic") \cup
+    (IF r.recycled_out # "ok" THEN {} ELSE
+     LET rv == RawBuild([j \in 1..Len(e.items) |-> e.items[Len(e.items) + 1 - j]])
+     IN CD(OkNess(r.recycled.outs) = OkNess(rv.outs) /\ r.recycled.wi.out = "ok" /\ r.recycled.wi.v = WireInts(rv.b.raw), "api:recycled-raw-builder")) \cup
+    CD(r.empty_finish = [out |-> "ok", v |-> <<0, 0>>] /\ r.empty = [out |-> "ok", v |-> <<0, 0>>], "api:empty-raw-snapshot"))) \cup
+  \* one delta, several size tables
+  (LET d == e.delta
+       D == Delta(EmptySnap, R)
+   IN CV(d.create = "ok", "api:create-panic") \cup
+      (IF d.create # "ok" \/ OkNess(e.raw.outs) # OkNess(rb.outs) THEN {} ELSE
+       CD(d.fits1 = Writable(D, osz) /\ d.fits2 = Writable(D, osz2), "api:writable-verdict") \cup
+       (IF ~Has(d, "w1") THEN {} ELSE
+        CV(d.w1.out = "ok", "api:delta-write-" \o d.w1.out) \cup
+        (IF d.w1.out # "ok" THEN {} ELSE
+         CD(d.w1.v = DeltaWire(D, osz), "api:delta-wire-form-differs") \cup
+         AppliedIs(d.r11, R, "api:table-1") \cup
+         CV(d.r12.read # "panic" /\ (~Has(d.r12, "apply") \/ d.r12.apply # "panic"), "api:delta-read-with-another-table-panic") \cup
+         (LET px == ParseDelta(d.w1.v, FALSE, osz2) IN
+          CD(px.ok = (d.r12.read = "ok"), "api:delta-read-with-another-table-verdict")))) \cup
+       (IF ~Has(d, "w2") THEN {} ELSE
+        CV(d.w2.out = "ok" /\ d.w2b.out = "ok", "api:delta-write-" \o d.w2.out \o "-" \o d.w2b.out) \cup
+        (IF d.w2.out # "ok" \/ d.w2b.out # "ok" THEN {} ELSE
+         CD(d.w2.v = DeltaWire(D, osz2), "api:delta-wire-form-differs") \cup
+         CV(Len(d.w2b.v) > ByteCheckMax \/ DecodeAll(d.w2b.v) = [ints |-> d.w2.v, tail |-> FALSE], "api:delta-bytes-differ-from-delta-ints") \cup
+         AppliedIs(d.r22, R, "api:table-2"))) \cup
+       CV(d.clear = "ok", "api:clear-panic") \cup
+       CD(d.cleared = [out |-> "ok", v |-> <<0, 0, 0>>] /\ d.new = [out |-> "ok", v |-> <<0, 0, 0>>], "api:cleared-delta"))) \cup
+  \* the Snap level
+  (LET sn == e.snap
+       probes == [j \in 1..Len(e.sprobe) |-> [ty |-> e.sprobe[j][1], i |-> e.sprobe[j][2]]]
+       x == Expect(SS, probes)
+   IN CV(\A j \in 1..Len(sn.outs) : sn.outs[j] # "panic", "api:builder-add-panic") \cup
+      CV(OkNess(sn.outs) = OkNess(bb.outs), "api:builder-add-outcome") \cup
+      (IF OkNess(sn.outs) # OkNess(bb.outs) THEN {} ELSE
+       CV(sn.enum_out = "ok" /\ sn.look_out = "ok", "api:panic-in-items-item") \cup
+       (IF sn.enum_out # "ok" \/ sn.look_out # "ok" THEN {} ELSE
+        LET n == Cardinality(DOMAIN x.view)
+            order == [j \in 1..Len(sn.enum.order) |-> <<sn.enum.order[j].ty, sn.enum.order[j].i>>]
+            \* the order of the signed key of the raw items behind the view
+            vk == SelectSeq(SignedKeySeq(DOMAIN SS), LAMBDA k : k[1] # TypeEx)
+        IN CV(Len(sn.enum.order) = n /\ SameSnap(ViewOfItems(sn.enum.order), x.view), "api:enumerated-items-differ") \cup
+           CV(sn.enum.lens = [j \in 1..(n + 1) |-> n + 1 - j], "api:announced-length-differs") \cup
+           CD(sn.enum.hints = [j \in 1..(n + 1) |-> <<n + 1 - j, n + 1 - j>>], "api:size-hints") \cup
+           CD(order = [j \in 1..Len(vk) |-> <<TypeOfRaw(SS, vk[j][1]), vk[j][2]>>], "api:enumeration-order") \cup
+           CV(sn.look = x.look, "api:lookup-differs")) \cup
+       CV(sn.crc = x.crc, "api:checksum-differs") \cup
+       CD(sn.wi.out = "ok" /\ sn.wi.v = WireInts(SS), "api:wire-ints-differ") \cup
+       CD(sn.empty_finish = [out |-> "ok", v |-> <<0, 0>>] /\ sn.empty = [out |-> "ok", v |-> <<0, 0>>] /\ sn.empty_n = 0, "api:empty-snapshot") \cup
+       CD(\A j \in 1..Len(e.adds) : sn.tyconv[j].from = e.adds[j].ty, "api:type-id-conversion")))
+
 Judge(e) ==
   CASE e.op = "pair" -> JudgePair(e)
     [] e.op = "snap" -> JudgeSnap(e)
     [] e.op = "parse" -> IF e.kind \in {"si", "sb"} THEN JudgeParseSnap(e) ELSE JudgeParseDelta(e)
+    [] e.op = "api" -> JudgeApi(e)
     [] OTHER -> {<<"V", "unknown-event">>}
 
 IsV(c) == c[1] = "V"
 
-Init == i = 0 /\ nv = 0
+Init == i = 0 /\ nv = 0 /\ hist = <<EmptySnap>> /\ store = <<EmptySnap>> /\ rstore = << [has |-> TRUE, s |-> EmptySnap] >> /\ last = NoLast
+Tell(cs) == /\ \A c \in cs : PrintT(<<"COMPLAINT", i + 1, c[1], c[2]>>)
+            /\ nv' = nv + Cardinality({c \in cs : IsV(c)})
+            /\ (i + 1 = Len(Rec) => TLCSet(7, nv'))
 Next == /\ i < Len(Rec)
         /\ i' = i + 1
-        /\ LET cs == Judge(Rec[i + 1]) IN
-           /\ \A c \in cs : PrintT(<<"COMPLAINT", i + 1, c[1], c[2]>>)
-           /\ nv' = nv + Cardinality({c \in cs : IsV(c)})
-           /\ (i + 1 = Len(Rec) => TLCSet(7, nv'))
+        /\ LET e == Rec[i + 1] IN
+           IF e.op = "chain"
+           THEN LET x == ChainStep(e) IN
+                /\ Tell(x.cs)
+                /\ hist' = x.hist /\ store' = x.store /\ rstore' = x.rstore /\ last' = x.last
+           ELSE /\ Tell(Judge(e))
+                /\ UNCHANGED <<hist, store, rstore, last>>
 Spec == Init /\ [][Next]_vars
 
 ASSUME TLCSet(7, -1)
